@@ -29,6 +29,10 @@ func checkC06(c *Ctx) error {
 		cfg = "GenExpr.thorough.cfg"
 	}
 	_, err := c.mustTLC("GenExpr/"+cfg, TLCOpts{Module: "GenExpr", Cfg: cfg, Workers: 12, Seed: c.Seed, Timeout: 40 * time.Minute}, true, pool.feed)
+	if err == nil && !c.Thorough() {
+		// every single operator over the full pool (all printed forms of the right operand of string +)
+		_, err = c.mustTLC("GenExpr/one", TLCOpts{Module: "GenExpr", Cfg: "GenExpr.one.cfg", Workers: 8, Seed: c.Seed, Timeout: 40 * time.Minute}, true, pool.feed)
+	}
 	if err == nil {
 		c.exhaustive = true
 		n := 1500
